@@ -134,8 +134,15 @@ def make_two_askers(shape: Dict[str, Any]) -> Any:
             else:
                 recorded = False
             heard_keys = shape.get('heard_known', [])
-            recs = [VOCAB[k].make(4500, t0, False) for k in heard_keys]
-            zc.query_handler.async_response([mk_query(t0, [Q(T1, PTR)], recs)], False)
+            if shape.get('heard_in_two_datagrams'):
+                # a truncated query followed by its continuation: the known answers are the union of both datagrams
+                split = max(1, len(heard_keys) // 2)
+                msgs = [mk_query(t0, [Q(T1, PTR)], [VOCAB[k].make(4500, t0, False) for k in heard_keys[:split]], truncated=True, data=b'p1'),
+                        mk_query(t0, [Q(T1, PTR)], [VOCAB[k].make(4500, t0, False) for k in heard_keys[split:]], data=b'p2')]
+                zc.query_handler.async_response(msgs, False)
+            else:
+                recs = [VOCAB[k].make(4500, t0, False) for k in heard_keys]
+                zc.query_handler.async_response([mk_query(t0, [Q(T1, PTR)], recs)], False)
             first_known = [VOCAB[k].ident for k in heard_keys]
         gap = ctx.int('gap', 0, 2500)
         loop.now_ms = t0 + gap
@@ -169,8 +176,22 @@ def make_lookup_known(shape: Dict[str, Any]) -> Any:
         zc = env.make_zc(loop)
         held = fill_cache(ctx, zc, t0, keys)
         info = ServiceInfo(T1, NAME, server=HOST)
+        hist_gap = None
+        if shape.get('history'):
+            # the same questions were asked (QM, nothing known) a symbolic while ago by someone in this instance
+            from zeroconf._dns import DNSQuestion
+
+            hist_gap = ctx.int('history_gap', 0, 2500)
+            for n_, t_ in ((NAME, SRV), (NAME, TXT), (HOST, A), (HOST, AAAA)):
+                zc.question_history.add_question_at_time(DNSQuestion(n_, t_, IN), t0 - hist_gap, set())
         out = info._generate_request_query(zc, t0, qtype)
         if ctx.twin:
+            return
+        if hist_gap is not None:
+            if qtype is DNSQuestionType.QU or hist_gap > 999:
+                ctx.check(len(out.questions) == 4, 'lookup questions suppressed although they are QU or the earlier asking is older than 999 ms')
+            else:
+                ctx.check(len(out.questions) == 0, 'QM lookup questions repeated within 999 ms of an identical asking')
             return
         fresh_keys = [k for k in keys if fresh(held[k], t0)]
         want_q = []
@@ -224,6 +245,7 @@ def obligations(tier: str) -> List[Obligation]:
         'heard-knows-less': {'cached': ['P1'], 'first': 'heard', 'heard_known': []},
         'heard-knows-more': {'cached': ['P1'], 'first': 'heard', 'heard_known': ['P1', 'P2']},
         'heard-knows-the-same': {'cached': ['P1'], 'first': 'heard', 'heard_known': ['P1']},
+        'heard-two-datagrams-knows-more': {'cached': ['P1'], 'first': 'heard', 'heard_known': ['P2', 'P1'], 'heard_in_two_datagrams': True},
         'heard-but-not-responder': {'cached': ['P1'], 'first': 'heard-no-service', 'heard_known': []},
     }
     if tier == 'thorough':
@@ -235,6 +257,8 @@ def obligations(tier: str) -> List[Obligation]:
         'srv-txt': {'cached': ['S1', 'T1']},
         'addresses': {'cached': ['A1', 'A2']},
         'all-qm': {'cached': ['S1', 'T1', 'A1', 'AAAA1'], 'question_type': DNSQuestionType.QM},
+        'after-history-qu': {'cached': [], 'history': True},
+        'after-history-qm': {'cached': [], 'history': True, 'question_type': DNSQuestionType.QM},
     }
     for k, v in lk.items():
         obs.append(Obligation(f'lookup-query[{k}]', make_lookup_known(v), 'lookup-query', {'name': k, **{a: str(b) for a, b in v.items()}}, timeout=120))
